@@ -198,9 +198,50 @@ def run(ctx, run):
     _served_by_own_services(ctx, run)
     _header_complete_by_offset(ctx, run)
     _services_accumulate(ctx, run, P.need("vbi_proxyd_take_service_req", UNIT))
+    _recycled_buffer_unreferenced(ctx, run, P.need("vbi_proxy_queue_get_free", UNIT))
     _sent_frame_released(ctx, run, P.need("vbi_proxyd_handle_client_sockets", UNIT))
     from .. import sweep
     sweep.run(ctx, run, ["src/proxy-client.c"], {}, 10)
+
+
+def _recycled_buffer_unreferenced(ctx, run, f):
+    """vbi_proxy_queue_get_free() hands out a frame buffer for a new frame.  A buffer on the free list may still carry a
+    reference count (a channel flush puts referenced buffers there), so every path on which a buffer was taken from the
+    free list stores ref_count = 0 before the function returns it - otherwise the buffer can never be released again and
+    after one round through the queue every further frame is dropped for all clients."""
+    run.touch(f)
+    takes = []
+    for bid, i in flow.all_events(f):
+        for lhs, var, op, rhs in flow.stores(f, i):
+            if lhs is None or rhs is None:
+                continue
+            l = f.exprs[ex.skip(f, lhs)]
+            if l["k"] == "ref" and l.get("dk") == "local" and "PROXY_DEV.p_free" in atoms.Operand(f, rhs).fields | \
+                    {x.replace("_s.", ".") for x in atoms.Operand(f, rhs).fields}:
+                takes.append((bid, i, l["name"]))
+    run.floor("loads of the free list head in vbi_proxy_queue_get_free", len(takes), 1)
+    for bid, i, name in takes:
+        # the branch on which the buffer exists
+        start = None
+        for b2, blk in f.blocks.items():
+            t = blk.term
+            if t and "cond" in t and (b2 == bid or flow.dominates(f, bid, b2)):
+                for s2, lab in f.edges(b2):
+                    if lab in ("T", "F") and any(a.rel == "!=" and a.R is not None and a.R.const == 0 and name in a.L.locals and not a.L.fields
+                                                  for a in atoms.edge_atoms(f, b2, lab)):
+                        start = start or s2
+        key = "RF-INIT:vbi_proxy_queue_get_free:recycled-buffer-unreferenced"
+        if start is None:
+            run.note("vbi_proxy_queue_get_free: no `%s != NULL` branch found; recycled-buffer rule not decided" % name)
+            continue
+        clears = {b for b, j in flow.all_events(f) if atoms.store_to_field("PROXY_QUEUE_s.ref_count", 0)(f, j)}
+        if f.exit in flow.reach_from(f, start, avoid=clears):
+            run.violation("RF-INIT", key, "a buffer taken from the free list (`%s`) is returned on a path that does not store "
+                          "ref_count = 0: a buffer a channel flush put there while clients still referenced it keeps its count, can "
+                          "never be released, and once every buffer has been round the queue all further frames are dropped"
+                          % ex.pretty(f, i)[:50], ex.loc(f, i), witness={"function": f.name})
+        else:
+            run.holds("RF-INIT", key, "every path from `%s != NULL` to the return stores ref_count = 0" % name, ex.loc(f, i))
 
 
 def _services_accumulate(ctx, run, f):
